@@ -104,7 +104,16 @@ def run(rep, props, replay=None):
                     else:
                         with warnings.catch_warnings():
                             warnings.simplefilter("ignore")
+                            ev_before = np.array(f._eigenvectors, float, copy=True) if getattr(f, "_eigenvectors", None) is not None else None
                             Si = np.asarray(f.transform(None, method="InnPro"), float)
+                            Si2 = np.asarray(f.transform(None, method="InnPro"), float)
+                            Si3 = np.asarray(f.transform(None, method="InnPro"), float)
+                        if not (np.array_equal(Si2, Si) and np.array_equal(Si3, Si)):
+                            rep.violation(f"InnPro scores of the stored training data change from call to call (max "
+                                          f"{np.max(np.abs(Si3 - Si)):.3g}): scoring consumes / rescales the fitted state",
+                                          {**opts, "X": C.hexf(X), "x": C.hexf(x)})
+                        elif ev_before is not None and not np.array_equal(np.asarray(f._eigenvectors, float), ev_before):
+                            rep.violation("transform(method='InnPro') changes the fitted Gram eigenvectors", {**opts, "X": C.hexf(X), "x": C.hexf(x)})
                         t = runq.add(f"score_cov_ok {C.qlit(1e-7 * sc * sc)} {n} {C.qlist(lam)} {C.qmat(Si)}")
                         todo.append((t, None, "Gram-based scores uncorrelated with variance lambda (inner-product method)", key, opts))
                     # inverse_transform: affine model on training scores and on random scores
